@@ -13,7 +13,12 @@ CONSTANT MaxHist
 VARIABLE hist
 gvars == <<vars, hist>>
 
-GInit == Init /\ hist = <<>>
+\* the first entry carries the initial state (block height)
+GInit == /\ Init
+         /\ hist = << [a |-> "Init", i |-> 0, enough |-> TRUE, f |-> "none",
+                       st |-> [blk |-> blk, done |-> FALSE, winner |-> 0, pending |-> {},
+                               members |-> { [m |-> i, pc |-> "idle", req |-> -1, ref |-> -1,
+                                              nsub |-> 0, res |-> "none"] : i \in Controlled }]] >>
 
 \* abstract state after the step, as the harness observes it
 St == [blk |-> blk', done |-> done', winner |-> winner',
@@ -36,8 +41,12 @@ GNext ==
 GSpec == GInit /\ [][GNext]_gvars
 
 Params == [proto |-> Proto, n |-> N, controlled |-> Controlled, step |-> Step, start |-> Start,
+           faults |-> Faults,
            timeout |-> Timeout, entryMod |-> EntryMod, indexing |-> Indexing,
-           submitter |-> Submitter, challenge |-> Challenge, precedence |-> Precedence]
+           submitter |-> Submitter, challenge |-> Challenge, precedence |-> Precedence,
+           \* slots for the fixed reference block (used by the approval harness to
+           \* tell the per-member goroutines apart)
+           slots |-> { [m |-> i, slot |-> Slot(i, Start)] : i \in Controlled }]
 
 Emit ==
     (AllDone \/ Len(hist) = MaxHist) =>
